@@ -82,6 +82,7 @@ type v6Sub struct {
 	viaInt    bool
 	serial    int64
 	otherPath bool     // resubmitted through the other intermediate certificate
+	oddSAN    bool     // the leaf parses only with x509.NonFatalErrors
 	preIssuer bool     // [precert, Precertificate Signing Certificate, CA]
 	ikh       [32]byte // independently derived issuer key hash (precert entries)
 	tbs       []byte
@@ -122,6 +123,7 @@ func newV6Env(t *testing.T, out *verifkit.Out, r *verifkit.Rand, name string) *v
 	e.pki = verifkit.NewMiniPKI(base)
 	e.tsNanos = uint64(base.UnixNano()) + uint64(r.I64n(999_999_999))
 	e.backend = verifkit.NewRefLog(e.tsNanos)
+	e.backend.Wire = true // replies as they arrive over gRPC: an empty repeated field is nil
 	key, err := ecdsa.GenerateKey(elliptic.P256(), crand.Reader)
 	if err != nil {
 		t.Fatal(err)
@@ -182,7 +184,17 @@ func (e *v6Env) prepare(again *v6Sub, forcePrecert bool) *v6Sub {
 		e.serial++
 		s = &v6Sub{precert: forcePrecert || e.r.Intn(3) == 0, serial: e.serial}
 		s.viaInt = e.r.Bool()
+		// one certificate in six parses only with a non-fatal error (ValidateChain admits those; every reader must still decode it)
+		e.pki.OddSAN = e.r.Intn(6) == 0
 		leaf := e.pki.Issue(e.serial, s.precert, s.viaInt)
+		if e.pki.OddSAN {
+			if _, perr := x509.ParseCertificate(leaf); perr == nil || x509.IsFatal(perr) {
+				e.t.Fatalf("odd-SAN certificate: want a non-fatal parse error, got %v", perr)
+			}
+			s.oddSAN = true
+			e.out.Count("mode:leaf-with-non-fatal-parse-error")
+		}
+		e.pki.OddSAN = false
 		e.finishChain(s, leaf)
 	} else {
 		s = &v6Sub{precert: again.precert, idHash: again.idHash, stored: again.stored, viaInt: again.viaInt, serial: again.serial, preIssuer: again.preIssuer}
@@ -566,6 +578,9 @@ func (e *v6Env) inclusion(s *v6Sub, h v6STH) {
 	key := e.key(fmt.Sprintf("get-proof-by-hash size=%d", h.size))
 	if s.twin {
 		key = e.key(fmt.Sprintf("same-tbs-precert get-proof-by-hash size=%d", h.size))
+	}
+	if s.oddSAN {
+		key += " [leaf with a non-fatal parse error: 5-byte iPAddress in subjectAltName]"
 	}
 	idx := e.backend.IndexOfIdentity(s.idHash[:])
 	op := fmt.Sprintf("pbh %x %d", s.leafHash[:], h.size)
@@ -1105,6 +1120,17 @@ func TestVerifC06(t *testing.T) {
 	for h := 0; h < nHist; h++ {
 		e := newV6Env(t, out, r.Fork(), fmt.Sprintf("seed%d hist%d", verifkit.Seed(), h))
 		nOps := verifkit.N(120, 300)
+		// the one-entry tree: leaf_index=0, tree_size=1 is the only in-range request whose correct audit path is empty
+		e.submit(nil)
+		e.backend.Sequence(1, e.tsNanos+1_000_000)
+		e.tsNanos += 1_000_000
+		e.nOps++
+		out.T(fmt.Sprintf("seq %d %d", 1, e.tsNanos), "size 1")
+		e.getSTH()
+		if n := len(e.sths); n > 0 && e.sths[n-1].size == 1 {
+			e.entryAndProof(e.sths[n-1])
+			e.inclusion(e.subs[0], e.sths[n-1])
+		}
 		for i := 0; i < nOps; i++ {
 			e.step()
 			if i == nOps/2 {
